@@ -1152,6 +1152,16 @@ def _switches_are_plain(ctx):
     return seen_ >= 2
 
 
+def _vertex_border_test(fn):
+    """`is_vertex_on_border(x) and is_vertex_on_border(y)` used where the border status of the edge (x, y) is meant: the conjunction node, or None"""
+    for n in au.walk(fn):
+        if isinstance(n, ast.BoolOp) and isinstance(n.op, ast.And):
+            vs = [v for v in n.values if isinstance(v, ast.Call) and au.call_tail(v) == "is_vertex_on_border" and len(v.args) == 1]
+            if len(vs) >= 2 and len({au.src(v.args[0]) for v in vs}) >= 2:
+                return n
+    return None
+
+
 def avoid_edge_predicate(ctx):
     """avoid(a, b) == (avoid_edges given and edge in it) or (avoid_boundary and not a polyline and edge on border)"""
     fn0 = ctx.repo.func(EDGE, "EdgeSpanningTree._avoid_edge")
@@ -1188,6 +1198,12 @@ def avoid_edge_predicate(ctx):
             if bool(evf(f, env)) != want:
                 bad = bad or env
     except _Unknown as ex:
+        vb = _vertex_border_test(F.fn)
+        if vb is not None:
+            ctx.fail("C10-X1", ctx.site(EDGE, fn0, vb), "the border status of an edge is decided from the border status of its two end points",
+                     "an interior edge whose end points both lie on the border (a chord of a thin strip, an ear) is taken for a border edge: with avoid_boundary "
+                     "the tree refuses an admissible edge and no longer reaches every vertex it should")
+            return
         ctx.undecided("C10-X1", site, "_avoid_edge contains a condition the rule does not know", str(ex))
         return
     if bad is not None and not _switches_are_plain(ctx):
@@ -1824,6 +1840,10 @@ def _k1_admissible(ctx, F, fn0, LIST, lp, sort_node):
     elif all(v in ("all", "filtered", "inverted") for v in res.values()):
         ctx.fail(R, site, "admissible edges are not `all edges, or the non-border edges exactly when avoid_boundary is set on a non-polyline`",
                  f"selection per (avoid_boundary, polyline): {res} - the BFS tree excludes an edge iff avoid_boundary and not polyline and is_edge_on_border")
+    elif _vertex_border_test(fn) is not None:
+        ctx.fail(R, ctx.site(EDGE, fn0, _vertex_border_test(fn)), "the border status of an edge is decided from the border status of its two end points",
+                 "an interior edge whose end points both lie on the border is dropped from Kruskal's candidates: the result is not a minimum spanning "
+                 "forest of the admissible edges")
     else:
         ctx.undecided(R, site, "the expression building the admissible edge list is not recognised", "")
 
